@@ -31,15 +31,15 @@ META = {
         "yields, uncertainties, normsys factors, lumi central value and sigma > 0; histosys data, normfactor init/bounds free reals; one workspace has a sample yield of free sign (non-zero: a zero yield with non-zero MC uncertainty is not expressible in the format's relative errors)",
     ],
     "bounds": {
-        "quick": "5 exportable workspaces (1-2 channels, 1-3 samples, 1-3 bins; histosys, normsys, normfactor with custom init/bounds, shapesys, staterror, shapefactor, lumi with central value != 1; fixed parameters; 1-2 measurements); export -> import, export -> import -> export -> import, two directories",
-        "thorough": "10 workspaces",
+        "quick": "7 exportable workspaces (incl. parameter names containing the alpha_/gamma_ prefixes and a signed yield; 1-2 channels, 1-3 samples, 1-3 bins; histosys, normsys, normfactor with custom init/bounds, shapesys, staterror, shapefactor, lumi with central value != 1; fixed parameters; 1-2 measurements); export -> import, export -> import -> export -> import, two directories",
+        "thorough": "the 7 workspaces of the quick tier plus 100 seeded workspaces drawn from the spec-shape grammar (up to 3 channels x 3 samples x 4 bins x 5 modifiers per sample; MC-stat modifiers carry the per-channel name the XML format implies)",
     },
     "stubs": ["pyhf.writexml.uproot / pyhf.readxml.uproot -> RootStore", "pyhf.writexml.str / pyhf.readxml.float -> exact token round trip", "pyhf.writexml.np -> element-wise stand-in"],
     "outside_claim": ["unconstrained (normfactor) parameters whose own name starts with 'alpha_' or 'gamma_': the ROOT naming convention cannot tell them from constrained ones (format-dictated)", "uproot/ROOT serialisation (float width, TH1 conventions)", "XML text encoding, the DTD", "cli json2xml/xml2json wrappers"],
 }
 
 
-def _workspaces():
+def _workspaces(tier="quick", seed=0):
     Wk = []
     lcfg = {"name": "lumi", "auxdata": ["$la"], "sigmas": ["$ls"], "bounds": [["$x", "$x"]], "inits": ["$la2"]}
     Wk.append(("basic", [channel("SR", sample("sig", 2, normfactor()), sample("bkg", 2, normsys("xs"), histosys("jes", 2)))], [], "mu"))
@@ -62,12 +62,24 @@ def _workspaces():
     neg = sample("interf", 2, staterror("staterror_SR", 2))
     neg["data"] = ["$x", "$n"]
     Wk.append(("signed-yield", [channel("SR", sample("sig", 2, normfactor()), sample("bkg", 2, staterror("staterror_SR", 2), shapesys("ubkg", 2)), neg)], [], "mu"))
+    if tier != "quick":
+        # thorough: 100 seeded shapes of the spec-shape grammar, MC-stat modifiers renamed to the per-channel name the XML format implies
+        import copy
+        for sh in shapes.family_plus(seed, 100):
+            chans = copy.deepcopy(sh["spec"]["channels"])
+            for c in chans:
+                for smp in c["samples"]:
+                    for m in smp["modifiers"]:
+                        if m["type"] == "staterror":
+                            m["name"] = f"staterror_{c['name']}"
+            pars = [dict(lcfg)] if sh["spec"].get("parameters") else []
+            Wk.append((sh["tag"], chans, pars, "mu"))
     return Wk
 
 
 def items(tier, seed):
     out = []
-    for i, w in enumerate(_workspaces()):
+    for i, w in enumerate(_workspaces(tier, seed)):
         out.append(("roundtrip", i, w[0]))
     out.append(("cycles", 0, "basic"))
     out.append(("cycles", 2, "lumi"))
@@ -77,7 +89,7 @@ def items(tier, seed):
 
 
 def _build(env, idx, prefix=""):
-    tag, chans, pars, poi = _workspaces()[idx]
+    tag, chans, pars, poi = _workspaces(env.tier, env.seed)[idx]
     spec = shapes.realize(env, {"channels": chans, "parameters": pars}, prefix=prefix)
     if tag == "signed-yield":
         # negative yields are expressible; a zero yield with a non-zero MC uncertainty is not (the format stores
